@@ -117,6 +117,13 @@ def run(chk, tier):
             n += 1
             expect(chk, "R-WIRE", RAD + "::" + acc, t, F(field), fn.where(), "returns its own field")
     chk.floor("Radial accessors", n, 14)
+    # the chrono view of the collection time is the same instant: the epoch-millisecond field, converted by chrono itself
+    t, fn = eval_or_blind(chk, sym.Evaluator(prog), "R-WIRE", RAD + "::collection_time")
+    if t is not None:
+        want = ("call", "chrono::datetime::DateTime::<chrono::offset::utc::Utc>::from_timestamp_millis", (F("collection_timestamp"),))
+        okk = t == want or sym.sem_eq(t, want)
+        chk.ob("R-WIRE", RAD + "::collection_time", okk, "collection_time() = DateTime::from_timestamp_millis(collection_timestamp)" if okk else
+               "collection_time() is %s, not the epoch-millisecond field converted as a whole" % show(t)[:200], fn.where(), key="chrono-view")
     t, fn = eval_or_blind(chk, ev, "R-WIRE", MD + "::from_fixed_point", [P("scale"), P("offset"), P("values")])
     if t is not None:
         expect(chk, "R-WIRE", MD + "::from_fixed_point", t, adt(MD, "MomentData", (("scale", P("scale")), ("offset", P("offset")), ("values", P("values")))), fn.where(),
